@@ -202,7 +202,7 @@ type c08Live struct {
 
 // c08RandomSchedule returns an adaptive step chooser: it only starts reconciles of
 // objects that are being deleted (or are gone), one at a time per (controller, key).
-func c08RandomSchedule(r *Rng, n int) func(w *c08World, i int) (c08Step, bool) {
+func c08RandomSchedule(r *Rng, n int, liveClaims bool) func(w *c08World, i int) (c08Step, bool) {
 	live := map[int]c08Live{}
 	return func(w *c08World, i int) (c08Step, bool) {
 		if i >= n {
@@ -237,6 +237,30 @@ func c08RandomSchedule(r *Rng, n int) func(w *c08World, i int) (c08Step, bool) {
 			}
 			if v.hasFin(c08Hold) {
 				unfins = append(unfins, v)
+			}
+		}
+		if liveClaims {
+			// Known finding C08:instance-recreated-during-xrd-teardown: while the XRD is being
+			// torn down, a reconcile of a claim that is NOT being deleted may re-create its XR.
+			// That path (bind/sync) is outside the model: such scenarios are skipped by the
+			// model and judged by the monitors only.
+			xrdDeleting := false
+			for _, v := range s.ofKind("xrd") {
+				xrdDeleting = xrdDeleting || v.Del
+			}
+			if xrdDeleting {
+				for _, k := range keys {
+					v := s.objs[k]
+					if v.Kind == "claim" && !v.Del && v.Ref != "" && !busy[c08Live{"claim", v.Name}] {
+						if _, ok := s.objs["xr/"+v.Ref]; !ok {
+							// weight: as likely as the other reconciles together, so that the window is hit
+							for j := 0; j <= len(spawns); j++ {
+								spawns = append(spawns, c08Live{"claim", v.Name})
+							}
+							break
+						}
+					}
+				}
 			}
 		}
 		if r.Chance(4, 100) {
@@ -294,25 +318,47 @@ func c08RandomSchedule(r *Rng, n int) func(w *c08World, i int) (c08Step, bool) {
 	}
 }
 
-// c08Class summarises which teardown transitions a run exercised.
+// c08Class summarises a run: family / teardown writes and waits that happened /
+// environment and fault kinds that occurred (d=user delete by kind, g=GC step that
+// changed something, u=third-party finalizer removal, c=crash, f=injected error or
+// conflict, x=reconcile of an object that no longer exists).
 func c08Class(fam string, s c08Scn, o c08Obs) string {
 	tags := map[string]bool{}
+	env := map[string]bool{}
 	for i, st := range o.Steps {
-		if s.Steps[i].Op != "step" {
+		sp := s.Steps[i]
+		switch sp.Op {
+		case "del":
+			if len(st.Chg) > 0 {
+				env["d:"+sp.Kind] = true
+			}
+		case "gc":
+			if len(st.Chg) > 0 {
+				env["g"] = true
+			}
+		case "unfin":
+			if len(st.Chg) > 0 {
+				env["u"] = true
+			}
+		}
+		if sp.Op != "step" {
 			continue
 		}
 		if st.Resp == "crashed" {
-			tags["crash"] = true
+			env["c"] = true
 		}
-		if st.Resp == "conflict" {
-			tags["conflict"] = true
+		if (sp.O == "fail" || sp.O == "conflict") && st.Call != "" {
+			env["f"] = true
 		}
-		if st.Resp == "other" {
-			tags["error"] = true
+		if st.Resp == "notFound" && strings.HasPrefix(st.Call, "get:") && st.Res == "ok" {
+			env["x"] = true
+		}
+		if st.Resp == "conflict" && sp.O == "ok" {
+			tags["staleconflict"] = true
 		}
 		switch {
 		case strings.HasPrefix(st.Call, "stop:"):
-			if st.Resp == "ok" {
+			if st.Resp == "ok" && len(st.Chg) > 0 {
 				tags["stop"] = true
 			}
 		case strings.HasPrefix(st.Call, "delete:crd") && st.Resp == "ok":
@@ -323,8 +369,12 @@ func c08Class(fam string, s c08Scn, o c08Obs) string {
 			} else {
 				tags["xrdel"] = true
 			}
+		case strings.HasPrefix(st.Call, "delete:claim") && st.Resp == "ok":
+			tags["claimdel"] = true
 		case strings.HasPrefix(st.Call, "update:claim") && st.Resp == "ok" && !strings.HasSuffix(st.Call, ":status"):
 			tags["claimfin"] = true
+		case strings.HasPrefix(st.Call, "update:xr:") && st.Resp == "ok" && !strings.HasSuffix(st.Call, ":status"):
+			tags["xrfin"] = true
 		case strings.HasPrefix(st.Call, "update:xrd") && st.Resp == "ok" && !strings.HasSuffix(st.Call, ":status"):
 			tags["xrdfin"] = true
 		case strings.HasPrefix(st.Call, "update:rev") && st.Resp == "ok" && !strings.HasSuffix(st.Call, ":status"):
@@ -340,15 +390,18 @@ func c08Class(fam string, s c08Scn, o c08Obs) string {
 			tags["wait"] = true
 		}
 	}
-	var ts []string
-	for t := range tags {
-		ts = append(ts, t)
+	join := func(m map[string]bool) string {
+		var ts []string
+		for t := range m {
+			ts = append(ts, t)
+		}
+		sort.Strings(ts)
+		return strings.Join(ts, "+")
 	}
-	sort.Strings(ts)
-	if len(ts) == 0 {
-		return "trivial/" + fam
+	if len(tags) == 0 {
+		return "trivial/" + fam + "/" + join(env)
 	}
-	return fam + "/" + strings.Join(ts, "+")
+	return fam + "/" + join(tags) + "/" + join(env)
 }
 
 // ---------------------------------------------------------------- exhaustive small scopes
@@ -523,8 +576,14 @@ func init() {
 			r := c.Rng.Fork()
 			s, fam := c08GenWorld(r)
 			n := r.Range(8, 45)
-			s2, obs, mons := c08Run(s, c08RandomSchedule(r, n))
-			c.Emit(s2, obs, mons, c08Class(fam, s2, obs))
+			// 1 scenario in 40 of the families with an XRD also schedules live-claim reconciles
+			liveClaims := (fam == "xrd" || fam == "mixed") && r.Chance(1, 16)
+			s2, obs, mons := c08Run(s, c08RandomSchedule(r, n, liveClaims))
+			cls := c08Class(fam, s2, obs)
+			if liveClaims {
+				cls = "liveclaim/" + cls
+			}
+			c.Emit(s2, obs, mons, cls)
 		}
 	})
 	RegisterDump("C08Consts", func() string {
